@@ -12,6 +12,8 @@ Verdict logic (DESIGN.md §2.4), the same for every property:
     harness errors exit 2 and never print a VIOLATION line.
 """
 import argparse
+import logging
+import warnings
 import importlib
 import json
 import os
@@ -44,6 +46,8 @@ def first_error(log):
 
 
 def main(argv=None):
+    logging.disable(logging.CRITICAL)      # aiuti logs every retried failure; asyncio logs dropped tasks
+    warnings.simplefilter('ignore')
     ap = argparse.ArgumentParser()
     ap.add_argument('prop')
     ap.add_argument('--tier', default=os.environ.get('VERIF_TIER', 'quick'),
